@@ -9,7 +9,7 @@ IDS="$*"; [ -n "$IDS" ] || IDS=$(echo "$S" | sed 's/-.*//')
 git -C /repo worktree add -q --detach "$W" HEAD || exit 3
 git -C "$W" apply "$P" || { echo "patch does not apply"; git -C /repo worktree remove --force "$W"; exit 3; }
 for id in $IDS; do
-  out=$(VERIF_REPO="$W" VERIF_EVIDENCE=/tmp/seed-evidence VERIF_REPLAYS=/tmp/seed-replays/try /verif/check $id $T 2>&1); rc=$?
+  out=$(VERIF_REPO="$W" VERIF_EVIDENCE=/tmp/seed-evidence VERIF_REPLAYS=/tmp/seed-replays/try "$(dirname "$0")/../check" $id $T 2>&1); rc=$?
   echo "== $id $T exit=$rc"; echo "$out" | grep -a -A3 "^--- " | cut -c1-600 | head -24; echo "$out" | grep -a "^VIOLATION\|^INCONCLUSIVE\|cases," | head -5
 done
 git -C /repo worktree remove --force "$W"; rm -rf /verif/.build/*-_tmp_try-$N
